@@ -36,6 +36,8 @@ fn templates(d: &str) -> Vec<Template> {
         Template { name: "env", pattern: "$ENV{LV_FW_DIR}/env.{}.log".to_string(), expanded: format!("{}/e{{}}x/env.{{}}.log", d), gz: false },
         // the index completes the name of a variable (the placeholder is substituted first)
         Template { name: "env-indexed", pattern: format!("{}/$ENV{{LV_FW_SLOT_{{}}}}.log", d), expanded: format!("{}/slot-{{}}-name.log", d), gz: false },
+        // the rolled file lives on another filesystem than the archives (rename fails, copy and delete)
+        Template { name: "cross-mount", pattern: format!("{}/xm.{{}}.log", d), expanded: format!("{}/xm.{{}}.log", d), gz: false },
         Template { name: "gzip", pattern: format!("{}/gz.{{}}.log.gz", d), expanded: format!("{}/gz.{{}}.log.gz", d), gz: true },
     ]
 }
@@ -103,7 +105,11 @@ fn check_template(case: &Value, t: &Template, root: &Path, offset: i64) -> Optio
             Err(e) => return Some(json!({"what": "roller build failed", "error": e.to_string()})),
         }
     };
-    let active = root.join("active.log");
+    let other = if t.name == "cross-mount" { Scratch::other_mount("fw") } else { None };
+    if t.name == "cross-mount" && other.is_none() {
+        return None; // no second filesystem on this machine
+    }
+    let active = other.as_ref().map(|o| o.path().join("active.log")).unwrap_or_else(|| root.join("active.log"));
     for (k, roll) in case["rolls"].as_array().unwrap().iter().enumerate() {
         let c = roll["content"].as_i64().unwrap();
         fs::write(&active, content(c)).unwrap();
@@ -111,6 +117,9 @@ fn check_template(case: &Value, t: &Template, root: &Path, offset: i64) -> Optio
             Ok(Ok(())) => {}
             Ok(Err(e)) => return Some(json!({"what": "roll returned an error", "roll": k + 1, "error": e.to_string()})),
             Err(p) => return Some(json!({"what": "roll panicked", "roll": k + 1, "error": p})),
+        }
+        if active.exists() {
+            return Some(json!({"what": "the rolled file still exists at its original path", "roll": k + 1}));
         }
         let mut want = bystanders.clone();
         for (i, c) in entries(&roll["after"], lo) {
@@ -139,7 +148,7 @@ pub fn main(args: &[String]) {
     let mut res = vec![];
     let mut runs = 0;
     for (ci, case) in rows.iter().enumerate() {
-        for ti in 0..6 {
+        for ti in 0..7 {
             let s = Scratch::new("fw");
             let d = s.path().to_string_lossy().to_string();
             std::env::set_var("LV_FW_DIR", format!("{}/e{{}}x", d));
